@@ -278,7 +278,24 @@ fn emit_simple(a: &mut Asm, rng: &mut Rng, o: &ProgOpts) {
             } else {
                 // legacy byte registers without REX: 0 AL, 1 CL, 2 DL, 4 AH, 5 CH, 6 DH (BL/BH belong to the data pointer)
                 let byte_regs: &[u8] = if o.reserved.contains(&1) { &[0, 2, 4, 6] } else { &[0, 1, 2, 4, 5, 6] };
-                match rng.below(19) {
+                match rng.below(20) {
+                    19 => {
+                        // nop qword/dword [s]  (REX.W 0F 1F /0): names an address, touches nothing
+                        if rng.below(2) == 0 {
+                            a.b.push(0x48 | (s >> 3));
+                        } else if s >= 8 {
+                            a.b.push(0x41);
+                        }
+                        a.b.extend_from_slice(&[0x0f, 0x1f]);
+                        let rm = s & 7;
+                        if rm == 4 {
+                            a.b.extend_from_slice(&[0x04, 0x24]);
+                        } else if rm == 5 {
+                            a.b.extend_from_slice(&[0x45, 0x00]);
+                        } else {
+                            a.b.push(rm);
+                        }
+                    }
                     17 => {
                         // imul r, s, imm32  (REX.W 69 /r id)
                         a.rex_w(r, s);
@@ -695,6 +712,12 @@ impl Prog {
 /// Builds the machine for a program: code, data area (counter-stamped), stack, all registers written.
 pub fn build(p: &Prog, stack: bool) -> Result<Axecutor, String> {
     let mut ax = Axecutor::new(&p.full_code(), CODE_AT - p.entry_off, CODE_AT).map_err(|e| err_first_line(&e))?;
+    equip(&mut ax, p, stack)?;
+    Ok(ax)
+}
+
+/// everything a program machine needs besides its code: data area, registers, stack, flags
+pub fn equip(ax: &mut Axecutor, p: &Prog, stack: bool) -> Result<(), String> {
     let data: Vec<u8> = (0..DATA_LEN).map(|i| (mix64(i) & 0xff) as u8).collect();
     ax.mem_init_area(DATA_AT, data).map_err(|e| err_first_line(&e))?;
     for (i, r) in GPR.iter().enumerate() {
@@ -711,5 +734,5 @@ pub fn build(p: &Prog, stack: bool) -> Result<Axecutor, String> {
         ax.reg_write_64(SR::RSP, p.init_gpr[4]).map_err(|e| err_first_line(&e))?;
     }
     ax.verif_set_rflags(p.init_flags);
-    Ok(ax)
+    Ok(())
 }
